@@ -106,6 +106,9 @@ def c11(tier, seed):
         {'line': './pargs $(echo a) $(echo b) `echo c` x`echo d`', 'files': {'pargs': PARGS}, 'expect_stdout': _argv(['a', 'b', 'c', 'xd']), 'area': 'substitution:several-in-one-line'},
         {'line': './pargs $(echo a | tr a b)', 'files': {'pargs': PARGS}, 'expect_stdout': _argv(['b']), 'area': 'substitution:pipeline'},
         {'line': 'X=$(echo v); ./pargs "$X"', 'files': {'pargs': PARGS}, 'expect_stdout': _argv(['v']), 'area': 'substitution:assignment'},
+        {'script': 'function g() {\n    if echo checking\n        echo body\n    fi\n    while ./once\n        echo round\n    done\n    if ./no\n        echo never\n    else\n        echo other\n    fi\n}\n./pargs "$(g)"\n',
+         'files': {'pargs': PARGS, 'once': '#!/bin/sh\n[ -f mark ] && exit 1\ntouch mark\necho first\n', 'no': '#!/bin/sh\necho tested\nexit 1\n'},
+         'expect_stdout': _argv(['checking\nbody\nfirst\nround\ntested\nother']), 'area': 'substitution:function:output-of-the-test-commands'},
         {'line': 'X=old; X=$(./two); ./pargs "$X"; V=$(./two) printenv V', 'files': {'pargs': PARGS, 'two': '#!/bin/sh\necho l1\necho l2\n'}, 'expect_stdout': _argv(['l1\nl2']) + 'l1\nl2\n', 'area': 'substitution:assignment:multi-line-output'},
         {'line': 'cat <<< $(echo hs)', 'expect_stdout': 'hs\n', 'area': 'substitution:here-string'},
         {'line': './pargs x$(nosuchcmd-xyz)y', 'files': {'pargs': PARGS}, 'expect_stdout': _argv(['xy']), 'area': 'substitution:not-found', 'timeout': 5},
@@ -636,6 +639,8 @@ def c15(tier, seed):
         {'script': 'for x in a b\n    ./st $x 3\n    break\ndone\n', 'files': F, 'expect_stdout': 'a\n', 'expect_rc': 3, 'area': 'script:status:loop-with-break'},
         {'script': './st z 0\nfor x in a b\n    ./st $x 4\ndone\n', 'files': F, 'expect_stdout': 'z\na\nb\n', 'expect_rc': 4, 'area': 'script:status:loop'},
         {'script': 'function g {\n    ./st g 2\n}\nfunction h() {\n    g\n}\nh\necho "st=$?"\n', 'files': F, 'expect_stdout': 'g\nst=2\n', 'area': 'function:nested-status'},
+        {'script': 'set -e\nif ./st t 1\n    echo no\nfi\necho after\nwhile ./st w 1\n    echo no\ndone\nif ./st u 1\n    echo no\nelse\n    echo else\nfi\nif ./st v 2\n    echo no\nfi\n', 'files': F,
+         'expect_stdout': 't\nafter\nw\nu\nelse\nv\n', 'expect_rc': 0, 'area': 'set-e:a-failing-test-is-not-a-failure'},
         {'script': 'function f() {\n    echo one\n}\nf\nfunction f() {\n    echo two $1\n}\nsource lib.sh\nf x\n', 'files': dict(F, **{'lib.sh': 'function g() {\n    echo g\n}\n'}), 'expect_stdout_any': ['two\ntwo x\n', 'one\ntwo x\n'], 'area': 'function:defined-again'},
         {'script': 'function f() {\n    echo mine\n}\nsource lib.sh\nf\n', 'files': dict(F, **{'lib.sh': 'function f() {\n    echo lib\n}\n'}), 'expect_stdout': 'lib\n', 'area': 'function:defined-again:by-a-sourced-file'},
         {'script': 'for x in $1 $@\n    ./pargs "$x"\ndone\nfunction w() {\n    for y in $0 $2\n        ./pargs "$y"\n    done\n}\nw a b\n', 'args': ['P', 'Q'], 'files': F,
